@@ -147,6 +147,38 @@ pub fn project(name: &str) -> Project {
                 ],
             }
         }
+        "aligned" => {
+            // the output is exactly 8192 bytes (one reader/writer buffer), written in small chunks
+            let body = |c: char| (0..128).map(|_| format!("{}\n", c.to_string().repeat(63))).collect::<String>();
+            Project {
+                name: name.into(),
+                sources: vec![src("al.txt.txtpp", "al.txt", &[], &[], &body('y'), &body('z'))],
+                plain,
+                sels: vec![sel(&["."], false, &[0]), sel(&["al.txt"], false, &[0])],
+            }
+        }
+        "empty" => {
+            // an empty output and an empty temp target
+            decoys(&mut plain, &[""]);
+            Project {
+                name: name.into(),
+                sources: vec![src("e.txt.txtpp", "e.txt", &["stamp"], &[], "-TXTPP#temp stamp\n", "-TXTPP#temp stamp\n+TXTPP#\n")],
+                plain,
+                sels: vec![sel(&["."], false, &[0]), sel(&["e.txt"], false, &[0])],
+            }
+        }
+        "big" => {
+            // an output of several writer buffers (interrupted runs can leave a partial one)
+            let big: String = (1..=3000).map(|i| format!("{i}\n")).collect();
+            tfile(&mut plain, "big.txt", &big);
+            let body = |x: &str| format!("{x}\nTXTPP#include big.txt\n-TXTPP#temp big.tmp\n-{x}\ntail\n");
+            Project {
+                name: name.into(),
+                sources: vec![src("b.txt.txtpp", "b.txt", &["big.tmp"], &[], &body("head"), &body("HEAD2"))],
+                plain,
+                sels: vec![sel(&["."], true, &[0]), sel(&["b.txt"], false, &[0])],
+            }
+        }
         _ => panic!("unknown project {name}"),
     }
 }
@@ -415,7 +447,7 @@ pub struct Fresh {
 }
 
 pub struct FreshCache {
-    map: HashMap<(Vec<usize>, bool, usize), Fresh>,
+    map: HashMap<(String, Vec<usize>, bool, usize), Fresh>,
 }
 
 impl FreshCache {
@@ -424,7 +456,7 @@ impl FreshCache {
     }
     /// what a build of a pristine copy of the current sources writes
     pub fn get(&mut self, b: &Bench, p: &Project, ver: &[usize], tn: bool, sel: usize) -> Fresh {
-        let key = (ver.to_vec(), tn, sel);
+        let key = (p.name.clone(), ver.to_vec(), tn, sel);
         if let Some(f) = self.map.get(&key) {
             return f.clone();
         }
@@ -734,9 +766,9 @@ pub fn run_property(prop: &str, tier: &str) -> i32 {
     let rep = Report::new(prop, tier);
     let thorough = rep.thorough();
     let plans: Vec<(&str, usize, bool)> = if thorough {
-        vec![("solo", 4, prop == "C08"), ("chain", 3, false), ("errsrc", 3, false), ("nested", 3, false)]
+        vec![("solo", 4, prop == "C08"), ("chain", 3, false), ("errsrc", 3, false), ("nested", 3, false), ("empty", 4, false), ("aligned", 2, false), ("big", 2, false)]
     } else {
-        vec![("solo", 2, prop == "C08"), ("chain", 2, false), ("errsrc", 2, false), ("nested", 2, false)]
+        vec![("solo", 2, prop == "C08"), ("chain", 2, false), ("errsrc", 2, false), ("nested", 2, false), ("empty", 3, false), ("aligned", 2, false)]
     };
     rep.set("bounds", json!(plans.iter().map(|(n, d, pf)| format!("{n}: depth {d}{}", if *pf { " + every byte-prefix" } else { "" })).collect::<Vec<_>>()));
     rep.set("operations", json!("RUN(mode in build/needed/verify/clean, input selection, trailing-newline on/off), EDIT(source i), TAMPER(generated path, 11 kinds)"));
@@ -755,7 +787,7 @@ pub fn run_property(prop: &str, tier: &str) -> i32 {
     if !rep.over_cap() {
         cli_binding(&rep, prop);
     }
-    if matches!(prop, "C07" | "C10") && !rep.over_cap() {
+    if !rep.over_cap() {
         crate::eclean::run_into(&rep, prop);
     }
     if prop == "C08" {
@@ -776,7 +808,7 @@ fn search(rep: &Report, prop: &str, p: &Project, depth: usize, prefixes: bool) {
                 rep.machinery(format!("project {} selection {si}: a pristine build gives ok={} but the project is written to give ok={want_ok}", p.name, fr.ok));
             }
             let fr1 = fc.get(&b, p, &vec![1; p.sources.len()], true, si);
-            if fr.ok && fr1.ok && fr.files == fr1.files {
+            if fr.ok && fr1.ok && fr.files == fr1.files && p.name != "empty" {
                 rep.machinery(format!("project {}: editing the sources does not change any generated file", p.name));
             }
         }
@@ -900,7 +932,7 @@ fn search(rep: &Report, prop: &str, p: &Project, depth: usize, prefixes: bool) {
 /// generated file of a freshly built project: verify must fail (C06), --needed must repair (C09), build must
 /// repair temp targets (C08; outputs are truncated by build anyway).
 fn byte_sweep(rep: &Report, prop: &str) {
-    let projects: Vec<&str> = if rep.thorough() { vec!["solo", "chain", "nested", "errsrc"] } else { vec!["solo", "chain"] };
+    let projects: Vec<&str> = if rep.thorough() { vec!["solo", "chain", "nested", "errsrc", "empty", "aligned", "big"] } else { vec!["solo", "chain", "empty", "aligned"] };
     for pname in projects {
         let p = project(pname);
         // a selection whose fresh build succeeds
@@ -928,6 +960,10 @@ fn byte_sweep(rep: &Report, prop: &str) {
         for (ti, (g, _)) in targets.iter().enumerate() {
             let n = fr.files.get(g).map(|b| b.len()).unwrap_or(0);
             for off in 0..=n {
+                // large files: the offsets around the 8 KiB buffer boundaries and the ends
+                if n > 1024 && !(off < 2 || off + 2 > n || (off + 2) % 8192 < 4 || off == n / 2) {
+                    continue;
+                }
                 items.push((ti, off));
             }
         }
